@@ -183,6 +183,7 @@ pub fn props_of(case: &Value) -> Vec<&'static str> {
     if slice == "alias" { v.push("C08"); }
     if slice != "print" { v.push("C04"); }
     if slice != "deep" { v.push("C19"); v.push("C21"); }
+    if slice == "lists" { v.push("C16"); }
     v
 }
 
@@ -228,6 +229,10 @@ pub fn replay(case: &Value) -> Vec<Obs> {
     let out_ok = (0..expect.len()).all(|i| i < run.segs.len() && run.segs[i].out == exp_at(i).out);
     let detail = format!("{} :: reference {} / engine {}{}", what, show_segs(&expect), show_segs(&run.segs),
                          run.panic.as_ref().map(|p| format!(" PANIC {}", p)).unwrap_or_default());
+    // C16: append() as a goal of a clause body (its list arguments were renamed with the clause): same verdict as the answers
+    if slice == "lists" { if let Tm::Cx(f, _) = &qt { if ["apb", "nest", "nest2"].contains(&f.as_str()) {
+        if first_part_ok { obs.push(Obs::ok("C16", "append-in-clause-body")); } else { obs.push(Obs::bad("C16", "append-in-clause-body", format!("{} :: reference {} / engine {}", what, show_segs(&expect), show_segs(&run.segs)))); }
+    } } }
     if first_part_ok && (out_ok || owner == "C04") { obs.push(Obs::ok(owner, "answers")); }
     else if owner != "C04" { obs.push(Obs::bad(owner, if first_part_ok { "output" } else { "answers" }, detail.clone())); }
     if expect.iter().any(|s| !s.out.is_empty()) || owner == "C04" {
